@@ -5,6 +5,7 @@ does not depend on the order of the input list (up to ties between equal sort ke
 -/
 import MsVerif.Model.Encode
 import MsVerif.Model.Satisfy
+import MsVerif.Model.Keys
 
 namespace MsVerif.Sorted
 
@@ -167,6 +168,57 @@ theorem sortKeys_perm_invariant (env : KeyEnv) (ks ks' : List Key) (hp : ks.Perm
     sortKeys env ks = sortKeys env ks' := by
   have := sortKeys_map_perm_invariant env id ks ks' hp hinj
   simpa using this
+
+/-! ### key environments whose sort key determines the pushed serialisation -/
+
+/-- Equal sort keys are pushed identically.  True of the real code: the ECDSA sort key
+`(compressed encoding, !compressed)` determines the point and the form that is pushed, the
+x-only sort key IS the pushed serialisation (`faithful_of_bip67`, `faithful_of_xonly`). -/
+def SortKeyFaithful (env : KeyEnv) : Prop :=
+  ∀ x y, env.sortKey x = env.sortKey y → env.ser x = env.ser y
+
+/-- a key environment built like `Terminal::encode` + `bip67_sort_key` see keys: every key is a
+curve point in compressed or uncompressed form; the compressed encoding identifies the point -/
+theorem faithful_of_bip67 (env : KeyEnv) (point : Key → Nat) (compressed : Key → Bool)
+    (serC serU : Nat → Bytes) (hinj : ∀ p q, serC p = serC q → p = q)
+    (hser : ∀ k, env.ser k = if compressed k then serC (point k) else serU (point k))
+    (hsort : ∀ k, env.sortKey k = Keys.bip67SortKey (serC (point k)) (compressed k)) :
+    SortKeyFaithful env := by
+  intro x y h
+  rw [hsort x, hsort y] at h
+  simp only [Keys.bip67SortKey] at h
+  have h' := List.append_inj' h rfl
+  have hp : point x = point y := hinj _ _ h'.1
+  have hc : compressed x = compressed y := by
+    have := h'.2
+    cases hx : compressed x <;> cases hy : compressed y <;> simp [hx, hy] at this ⊢
+  rw [hser x, hser y, hp, hc]
+
+theorem faithful_of_xonly (env : KeyEnv) (hsort : ∀ k, env.sortKey k = env.ser k) :
+    SortKeyFaithful env := by
+  intro x y h
+  rw [hsort x, hsort y] at h
+  exact h
+
+/-- the byte-string encoding of the Rust tuple `([u8; 33], bool)` has the tuple's order:
+first components of equal length are compared first, the flag (`false < true`, i.e.
+compressed first) only on a tie -/
+theorem bip67SortKey_le_iff : ∀ (a b : Bytes) (ca cb : Bool), a.length = b.length →
+    (bytesLe (Keys.bip67SortKey a ca) (Keys.bip67SortKey b cb) = true ↔
+      (a ≠ b ∧ bytesLe a b = true) ∨ (a = b ∧ (ca = true ∨ cb = false)))
+  | [], [], ca, cb, _ => by
+    cases ca <;> cases cb <;> simp [Keys.bip67SortKey, bytesLe]
+  | [], _ :: _, _, _, h => by simp at h
+  | _ :: _, [], _, _, h => by simp at h
+  | x :: xs, y :: ys, ca, cb, h => by
+    have ih := bip67SortKey_le_iff xs ys ca cb (by simpa using h)
+    simp only [Keys.bip67SortKey] at ih
+    simp only [Keys.bip67SortKey, List.cons_append, bytesLe, Bool.or_eq_true, Bool.and_eq_true,
+      decide_eq_true_eq, beq_iff_eq, ih, List.cons.injEq, ne_eq, not_and]
+    by_cases hxy : x = y
+    · subst hxy
+      simp [UInt8.lt_irrefl]
+    · simp [hxy]
 
 /-- the satisfier's copy of the sort is the same function -/
 theorem bytesLe'_eq : ∀ a b, bytesLe' a b = bytesLe a b
